@@ -20,3 +20,5 @@ def run(out, sc, tier, seed):
     for be in ("c", "py"):
         shards += run_driver(sc, "cmp", p, "cmp", backend=be, nslices=10, shard_size=3000)
     validate(out, sc, "TraceUrl", "C10", shards, "cmp")
+    from .common import run_witnesses
+    run_witnesses(out, sc, "C10")
